@@ -24,6 +24,7 @@
 #include "decode.h"             /* decode() */
 #include "main.h"               /* bs100k */
 #include "process.h"            /* struct process */
+#include "verif.h"
 
 #include <string.h>             /* memset() */
 
@@ -300,6 +301,7 @@ attach(struct detached_bitstream dbs)
 
   check_invariants();
   sched_unlock();
+  VERIF_YIELD(VS_COMPUTE_BEGIN, dbs.offset);
   return bs;
 }
 
@@ -621,6 +623,7 @@ do_retrieve(void)
   }
   check_invariants();
   sched_unlock();
+  VERIF_YIELD(VS_COMPUTE_BEGIN, rb->base.major);
 
   if (rv == OK)
     decode(&rb->ds);
@@ -660,6 +663,7 @@ do_emit(void)
   eb = dequeue(emit_q);
   check_invariants();
   sched_unlock();
+  VERIF_YIELD(VS_COMPUTE_BEGIN, eb->base.major);
 
   oblk = xmalloc(sizeof(struct out_blk) + out_granul);
   oblk->size = out_granul;
